@@ -19,13 +19,37 @@ class NotPolynomial(Exception):
     pass
 
 
+# Polynomials: dict {monomial: coefficient}.  A monomial is a Python int packing the exponent of variable number i
+# into bits [BITS*i, BITS*(i+1)) so that the product of two monomials is integer addition.  Coefficients are ints where
+# possible, Fractions otherwise.
+BITS = 5
+MASK = (1 << BITS) - 1
+_VAR_INDEX = {}
+_VAR_NAMES = []
+
+
+def var_index(name):
+    i = _VAR_INDEX.get(name)
+    if i is None:
+        i = len(_VAR_NAMES)
+        _VAR_INDEX[name] = i
+        _VAR_NAMES.append(name)
+    return i
+
+
+def _coef(c):
+    if isinstance(c, Fraction) and c.denominator == 1:
+        return int(c)
+    return c
+
+
 def p_const(c):
-    c = Fraction(c)
-    return {(): c} if c else {}
+    c = _coef(Fraction(c))
+    return {0: c} if c else {}
 
 
 def p_var(name):
-    return {((name, 1),): Fraction(1)}
+    return {1 << (BITS * var_index(name)): 1}
 
 
 def p_add(a, b, sb=1):
@@ -40,30 +64,34 @@ def p_add(a, b, sb=1):
 
 
 def p_scale(a, k):
+    k = _coef(Fraction(k))
     if not k:
         return {}
-    return {m: c * k for m, c in a.items()}
+    return {m: _coef(c * k) for m, c in a.items()}
 
 
-def m_mul(m1, m2):
-    if not m1:
-        return m2
-    if not m2:
-        return m1
-    d = dict(m1)
-    for v, e in m2:
-        d[v] = d.get(v, 0) + e
-    return tuple(sorted(d.items()))
+def m_items(m):
+    """[(var name, exponent)] of a packed monomial"""
+    out = []
+    i = 0
+    while m:
+        e = m & MASK
+        if e:
+            out.append((_VAR_NAMES[i], e))
+        m >>= BITS
+        i += 1
+    return out
 
 
 def p_mul(a, b):
     r = {}
     if len(a) > len(b):
         a, b = b, a
+    get = r.get
     for m1, c1 in a.items():
         for m2, c2 in b.items():
-            m = m_mul(m1, m2)
-            v = r.get(m, 0) + c1 * c2
+            m = m1 + m2
+            v = get(m, 0) + c1 * c2
             if v:
                 r[m] = v
             else:
@@ -71,8 +99,19 @@ def p_mul(a, b):
     return r
 
 
+def p_maxexp(p):
+    mx = 0
+    for m in p:
+        while m:
+            e = m & MASK
+            if e > mx:
+                mx = e
+            m >>= BITS
+    return mx
+
+
 class Reducer:
-    def __init__(self, rules, max_terms=400000):
+    def __init__(self, rules, max_terms=2000000):
         """rules: {var name: z3 term rhs}  meaning var*var == rhs"""
         self.rules_z3 = dict(rules)
         self.zvars = {}  # name -> z3 term for the variable
@@ -82,70 +121,33 @@ class Reducer:
         self.rule_poly = {}
         self.max_terms = max_terms
         self.n_product_lemmas = 0
+        self._shifts = None
         for v in list(self.rules_z3):
             self.zvars[v] = z3.Real(v)
         for v, rhs in self.rules_z3.items():
-            self.rule_poly[v] = self._plain(rhs)
-
-    # ---- plain expansion (no reduction), used for rule right-hand sides
-    def _plain(self, t):
-        if z3.is_rational_value(t) or z3.is_int_value(t):
-            return p_const(Fraction(t.numerator_as_long(), t.denominator_as_long()) if z3.is_rational_value(t) else t.as_long())
-        if z3.is_const(t) and t.decl().kind() == z3.Z3_OP_UNINTERPRETED:
-            self.zvars.setdefault(str(t), t)
-            return p_var(str(t))
-        k = t.decl().kind()
-        ch = t.children()
-        if k == z3.Z3_OP_TO_REAL:
-            if z3.is_int_value(ch[0]):
-                return p_const(ch[0].as_long())
-            self.zvars.setdefault(str(ch[0]), t)
-            return p_var(str(ch[0]))
-        if k == z3.Z3_OP_ADD:
-            r = {}
-            for c in ch:
-                r = p_add(r, self._plain(c))
-            return r
-        if k == z3.Z3_OP_SUB:
-            r = self._plain(ch[0])
-            for c in ch[1:]:
-                r = p_add(r, self._plain(c), -1)
-            return r
-        if k == z3.Z3_OP_UMINUS:
-            return p_scale(self._plain(ch[0]), -1)
-        if k == z3.Z3_OP_MUL:
-            r = p_const(1)
-            for c in ch:
-                r = p_mul(r, self._plain(c))
-            return r
-        if k == z3.Z3_OP_POWER and z3.is_rational_value(ch[1]) and ch[1].denominator_as_long() == 1 and ch[1].numerator_as_long() >= 0:
-            r = p_const(1)
-            b = self._plain(ch[0])
-            for _ in range(ch[1].numerator_as_long()):
-                r = p_mul(r, b)
-            return r
-        if k == z3.Z3_OP_DIV and z3.is_rational_value(ch[1]):
-            d = Fraction(ch[1].numerator_as_long(), ch[1].denominator_as_long())
-            if d == 0:
-                raise NotPolynomial("division by zero")
-            return p_scale(self._plain(ch[0]), 1 / d)
-        raise NotPolynomial(str(t.decl()))
+            self.rule_poly[v] = self._conv(rhs, plain=True)
 
     # ---- reduction of a polynomial, tracking cofactors
+    def _rule_shifts(self):
+        if self._shifts is None or len(self._shifts) != len(self.rule_poly):
+            self._shifts = [(v, BITS * var_index(v)) for v in self.rule_poly]
+        return self._shifts
+
     def _reduce(self, p):
         q = {}  # rule var -> cofactor polynomial
         work = dict(p)
         out = {}
+        rule_shifts = self._rule_shifts()
         guard = 0
         while work:
             guard += 1
-            if guard > 5000000:
+            if guard > 20000000:
                 raise NotPolynomial("reduction does not terminate")
             m, c = work.popitem()
             hit = None
-            for v, e in m:
-                if e >= 2 and v in self.rule_poly:
-                    hit = v
+            for v, sh in rule_shifts:
+                if ((m >> sh) & MASK) >= 2:
+                    hit = (v, sh)
                     break
             if hit is None:
                 nv = out.get(m, 0) + c
@@ -154,17 +156,16 @@ class Reducer:
                 else:
                     out.pop(m, None)
                 continue
-            # m = rest * v^2 ; replace by rest * rhs, cofactor += c*rest
-            rest = tuple((v, e) if v != hit else (v, e - 2) for v, e in m)
-            rest = tuple((v, e) for v, e in rest if e > 0)
-            qq = q.setdefault(hit, {})
+            v, sh = hit
+            rest = m - (2 << sh)
+            qq = q.setdefault(v, {})
             nv = qq.get(rest, 0) + c
             if nv:
                 qq[rest] = nv
             else:
                 qq.pop(rest, None)
-            for m2, c2 in self.rule_poly[hit].items():
-                mm = m_mul(rest, m2)
+            for m2, c2 in self.rule_poly[v].items():
+                mm = rest + m2
                 nv = work.get(mm, 0) + c * c2
                 if nv:
                     work[mm] = nv
@@ -182,8 +183,9 @@ class Reducer:
         for m, c in sorted(p.items()):
             f = []
             if c != 1 or not m:
+                c = Fraction(c)
                 f.append(z3.Q(c.numerator, c.denominator))
-            for v, e in m:
+            for v, e in m_items(m):
                 zv = self.zvars[v]
                 for _ in range(e):
                     f.append(zv)
@@ -201,8 +203,16 @@ class Reducer:
                 rhs = rhs + self.z(qp) * (zv * zv - self.rules_z3[v])
         self.lemmas.append(lhs_z == rhs)
 
-    def _mul_nodes(self, a, b):
+    def _mul_nodes(self, a, b, plain=False):
+        if len(a) * len(b) > 50 * self.max_terms:
+            raise NotPolynomial("product too large")
         raw = p_mul(a, b)
+        if len(raw) > self.max_terms:
+            raise NotPolynomial("product too large")
+        if p_maxexp(raw) > MASK - 2:
+            raise NotPolynomial("exponent overflow")
+        if plain:
+            return raw
         nf, q = self._reduce(raw)
         if any(q.values()):
             self._lemma(self.z(a) * self.z(b), nf, q)
@@ -212,15 +222,18 @@ class Reducer:
         return nf
 
     def nf(self, t):
-        tid = t.get_id()
+        return self._conv(t, plain=False)
+
+    def _conv(self, t, plain):
+        tid = (t.get_id(), plain)
         if tid in self.memo:
             return self.memo[tid]
         self.keep.append(t)
-        r = self._nf(t)
+        r = self._conv1(t, plain)
         self.memo[tid] = r
         return r
 
-    def _nf(self, t):
+    def _conv1(self, t, plain):
         if z3.is_rational_value(t):
             return p_const(Fraction(t.numerator_as_long(), t.denominator_as_long()))
         if z3.is_int_value(t):
@@ -238,34 +251,34 @@ class Reducer:
         if k == z3.Z3_OP_ADD:
             r = {}
             for c in ch:
-                r = p_add(r, self.nf(c))
+                r = p_add(r, self._conv(c, plain))
             return r
         if k == z3.Z3_OP_SUB:
-            r = self.nf(ch[0])
+            r = self._conv(ch[0], plain)
             for c in ch[1:]:
-                r = p_add(r, self.nf(c), -1)
+                r = p_add(r, self._conv(c, plain), -1)
             return r
         if k == z3.Z3_OP_UMINUS:
-            return p_scale(self.nf(ch[0]), -1)
+            return p_scale(self._conv(ch[0], plain), -1)
         if k == z3.Z3_OP_MUL:
-            r = self.nf(ch[0])
+            r = self._conv(ch[0], plain)
             for c in ch[1:]:
-                r = self._mul_nodes(r, self.nf(c))
+                r = self._mul_nodes(r, self._conv(c, plain), plain)
             return r
         if k == z3.Z3_OP_POWER and z3.is_rational_value(ch[1]) and ch[1].denominator_as_long() == 1 and ch[1].numerator_as_long() >= 0:
             n = ch[1].numerator_as_long()
             if n == 0:
                 return p_const(1)
-            b = self.nf(ch[0])
+            b = self._conv(ch[0], plain)
             r = b
             for _ in range(n - 1):
-                r = self._mul_nodes(r, b)
+                r = self._mul_nodes(r, b, plain)
             return r
         if k == z3.Z3_OP_DIV and z3.is_rational_value(ch[1]):
             d = Fraction(ch[1].numerator_as_long(), ch[1].denominator_as_long())
             if d == 0:
                 raise NotPolynomial("division by zero")
-            return p_scale(self.nf(ch[0]), 1 / d)
+            return p_scale(self._conv(ch[0], plain), 1 / d)
         raise NotPolynomial(str(t.decl()))
 
 
@@ -283,7 +296,6 @@ def certificate(lhs, rhs, rules, lemma_timeout_ms=5000):
     d = p_add(a, b, -1)
     info = {"lemmas": len(red.lemmas), "product_lemmas": red.n_product_lemmas, "nf_terms": len(d)}
     if d:
-        info["nf"] = red.z(d)
         return "nonzero", info
     for lem in red.lemmas:
         s = z3.Solver()
@@ -291,6 +303,6 @@ def certificate(lhs, rhs, rules, lemma_timeout_ms=5000):
         s.add(z3.Not(lem))
         r = s.check()
         if r != z3.unsat:
-            info["failed_lemma"] = str(lem)[:300]
+            info["failed_lemma"] = lem.sexpr()[:300]
             return "lemma-failed", info
     return "proved", info
